@@ -41,6 +41,7 @@ structure EP where
   done : List HS := []          -- closed handlers, with their final counters
   next : Nat := 0               -- next registration number
   errorReplies : Nat := 0       -- "consumer blocked" error replies sent for calls
+  closed : Bool := false        -- `closeWith` has run: nothing is registered any more
   deriving Repr
 
 def Spec.matches (s : Spec) (m : Msg) : Bool := s.modulus != 0 && m.action % s.modulus == s.residue
@@ -56,8 +57,10 @@ def place (h : HS) : List (Option HS) → Nat → List (Option HS) × Nat
   | none :: r, i => (some h :: r, i)
   | some x :: r, i => let (r', j) := place h r (i + 1); (some x :: r', j)
 
-/-- `MakeHandler` -/
+/-- `MakeHandler`.  On a closed endpoint the handler gets no slot: its close is scheduled at once and
+    the identifier returned (-1 in the code, 0 here: see `EP.closed`) names no handler. -/
 def make (e : EP) (s : Spec) : EP × Nat :=
+  if e.closed then ({ e with pending := e.pending ++ [{ uid := e.next, spec := s }], next := e.next + 1 }, 0) else
   let (sl, i) := place { uid := e.next, spec := s } e.slots 0
   ({ e with slots := sl, next := e.next + 1 }, i)
 
@@ -113,7 +116,7 @@ def drain (e : EP) (id k : Nat) : EP :=
 /-- `endPoint.closeWith`: under the lock every slot is emptied and one asynchronous close is
     scheduled per handler -/
 def closeAll (e : EP) : EP :=
-  { e with pending := e.pending ++ e.slots.filterMap id, slots := e.slots.map (fun _ => none) }
+  { e with pending := e.pending ++ e.slots.filterMap id, slots := e.slots.map (fun _ => none), closed := true }
 
 /-- the first scheduled `go handler.closeWith(err)` with registration number `uid` runs -/
 def asyncClose (e : EP) (uid : Nat) : EP :=
